@@ -23,14 +23,16 @@ RULE = ("schemas over every field family including nested schemas, config-type f
         "inspect.signature(function) minus its first parameter, nothing is written to stdout (captured at file-"
         "descriptor level and through sys.stdout), schema fingerprint and configuration snapshot unchanged; "
         "non-trivial = >= 3 fields and (>= 1 method or virtual field or nested part); distinct = distinct schema")
-REQUIRED = ("methods_registered_twice_compared", "input:nested-configtype", "decorated_methods_compared", "virtual_getters_with_string_annotations", "schemas_with_soft_keyword_names", "calls_without_class_name", "schemas_with_long_declaration", "input:nested-schema", "input:nested-config", "bare:empty", "bare:virtual", "bare:methods", "bare:both", "repeat_generations_compared", "dynamic_config_with_adhoc_field", "stubs_parsed", "attribute_sets_compared", "init_signatures_compared", "method_signatures_compared",
+REQUIRED = ("fields_registered_under_a_second_name", "fields_also_used_by_another_schema", "methods_with_percent_in_annotations", "methods_registered_twice_compared", "input:nested-configtype", "decorated_methods_compared", "virtual_getters_with_string_annotations", "schemas_with_soft_keyword_names", "calls_without_class_name", "schemas_with_long_declaration", "input:nested-schema", "input:nested-config", "bare:empty", "bare:virtual", "bare:methods", "bare:both", "repeat_generations_compared", "dynamic_config_with_adhoc_field", "stubs_parsed", "attribute_sets_compared", "init_signatures_compared", "method_signatures_compared",
             "stdout_captures", "side_effect_checks", "input:schema", "input:config", "input:configtype",
             "methods_with_return_annotation", "schemas_with_configtype_field")
 ASSUMPTIONS = ["functions always name their first (configuration) parameter; positional-only parameters are not generated"]
 ANNOTATIONS = ["", "", ": int", ": str", ": float", ": typing.Optional[int]", ": typing.List[str]", ": 'Config'", ": None",
-               ": typing.Dict[str, typing.Any]", ": bool", ": LocalCls", ": Outer", ": Outer.Inner", ": bytes"]
+               ": typing.Dict[str, typing.Any]", ": bool", ": LocalCls", ": Outer", ": Outer.Inner", ": bytes",
+               # annotations whose text carries characters that mean something to string formatting
+               ": typing.Literal['50%', '100%']", ": 'typing.Literal[\"%s\"]'", ": typing.Literal['{0}', '%(n)d']"]
 RETURNS = ["", "", " -> int", " -> str", " -> None", " -> typing.List[int]", " -> 'Config'", " -> typing.Optional[str]", " -> bool",
-           " -> LocalCls", " -> Outer.Inner"]
+           " -> LocalCls", " -> Outer.Inner", " -> typing.Literal['%d%%']", " -> 'typing.Literal[\"{}\", \"%\"]'"]
 
 
 def gen_method(rng, key):
@@ -120,7 +122,12 @@ def generate(rng, ctx):
         modes = rng.choice([["development", "production"], ["a", "b"], ["test_1", "stage"]])
         schema["fields"].append({"kind": "field", "key": extra.pop(), "family": "appmode",
                                  "params": {"modes": modes, "create_helpers": True}})
-    return {"schema": schema, "bare": bare, "name": rng.choice(["AppConfig", "Cfg", "T", "My_Config2"]),
+    alias = None
+    plain = [ch["key"] for ch in schema["fields"] if ch["kind"] == "field" and ch["family"] not in ("method", "appmode", "include")]
+    if plain and extra and rng.random() < 0.25:
+        # one field object under two names: a second spelling in the same schema, or the object re-used by another schema
+        alias = {"mode": rng.choice(["same-schema", "other-schema"]), "of": rng.choice(plain), "key": extra.pop()}
+    return {"schema": schema, "bare": bare, "alias": alias, "name": rng.choice(["AppConfig", "Cfg", "T", "My_Config2"]),
             "as": rng.choice(["schema", "config", "configtype", "nested-schema", "nested-config", "nested-configtype"]),
             "pick": rng.randrange(8)}
 
@@ -187,6 +194,18 @@ def run(case, ctx, res):
     if any(ch["kind"] == "field" and ch["family"] == "virtual" and str(ch["params"].get("ret_annotation") or "").startswith("'")
            for ch in case["schema"]["fields"]):
         res.count("virtual_getters_with_string_annotations")
+    alias = case.get("alias")
+    if alias and case["as"] in ("schema", "config", "configtype"):
+        fld = schema._fields[alias["of"]]
+        if alias["mode"] == "same-schema":
+            setattr(schema, alias["key"], fld)
+            src = next(ch for ch in root["fields"] if ch["key"] == alias["of"])
+            root["fields"].append(dict(src, key=alias["key"]))
+            res.count("fields_registered_under_a_second_name")
+        else:
+            other = cc.Schema()
+            setattr(other, alias["key"], fld)
+            res.count("fields_also_used_by_another_schema")
     cfg = schema()
     if root.get("dynamic"):
         # fields added on the fly to a dynamic configuration stay with that configuration
@@ -233,7 +252,15 @@ def run(case, ctx, res):
     if any(m["params"]["ret"] for m in methods):
         res.count("methods_with_return_annotation")
     fp0 = c13.fingerprint(cc, schema)
-    snap0 = Snapshot(cfg)
+    try:
+        snap0 = Snapshot(cfg)
+    except AttributeError:
+        # a field object under two names leaves a configuration that cannot be walked (the library keeps its value under the
+        # latest name only); the stub is still judged, the configuration comparison is left out
+        if not alias:
+            raise
+        snap0 = None
+        res.count("alias_cases_without_configuration_comparison")
     if case["as"] not in ("configtype", "nested-configtype"):
         # a call that is rejected (no class name for a schema / configuration) has no side effect either
         with Capture() as cap0:
@@ -251,7 +278,7 @@ def run(case, ctx, res):
             res.viol("M-stub", "changes-schema:rejected-call", "a generate_stub call without a class name (%s) changed the schema: %s" % (
                 "rejected with %r" % rejected if rejected else "accepted", d))
             return
-        d = snap0.diff(Snapshot(cfg))
+        d = snap0.diff(Snapshot(cfg)) if snap0 is not None else []
         if d or cap0.text or cap0.fd_bytes:
             res.viol("M-stub", "changes-config:rejected-call", "a generate_stub call without a class name changed the configuration or "
                      "wrote to standard output: %s" % ("; ".join(d[:3]) or cap0.text or cap0.fd_bytes))
@@ -288,7 +315,7 @@ def run(case, ctx, res):
     if d:
         res.viol("M-stub", "changes-schema", "generate_stub changed the schema: %s" % d)
         return
-    d = snap0.diff(Snapshot(cfg))
+    d = snap0.diff(Snapshot(cfg)) if snap0 is not None else []
     if d:
         res.viol("M-stub", "changes-config", "generate_stub changed the configuration: %s" % "; ".join(d[:3]))
         return
@@ -335,6 +362,8 @@ def run(case, ctx, res):
         sig = inspect.signature(glb["f"], follow_wrapped=False)
         if m["params"].get("wrapped"):
             res.count("decorated_methods_compared")
+        if "%" in m["params"]["source"]:
+            res.count("methods_with_percent_in_annotations")
         if m["params"].get("reuse_of"):
             res.count("methods_registered_twice_compared")
         params = list(sig.parameters.values())[1:]
